@@ -5,15 +5,21 @@
    order-0 ENCODER of noodles, and an INDEPENDENT decoder for orders 0 and 1 written from the
    CRAM codecs specification) and NV.Cram.Rans4x8O1 (faithful model of the order-1 ENCODER).
 
+   NV.Cram.Nx16Xform (PACK / RLE / CAT transforms), NV.Cram.Nx16O0 (rANS Nx16 ORDER-0 entropy
+   coder: noodles' encoder AND noodles' repaired decoder) and NV.Cram.Nx16Full (whole Nx16 streams).
+
    The models describe the REPAIRED code (fix commits 01-16 of the C08 series).
-   PARTIAL: proved in full for the three integer codings and for rANS 4x8 orders 0 AND 1 (every
-   byte string, whole stream, against the independent decoder); rANS Nx16, the arithmetic
-   coder, fqzcomp, the name tokenizer and gzip/bzip2/lzma have no theorem (implementation-side
-   oracle only). *)
+   PARTIAL: proved in full for the three integer codings, for rANS 4x8 orders 0 AND 1 (every
+   byte string, whole stream, against the independent decoder) and for rANS Nx16 under every
+   STRIPE-free flag byte whose data ends up verbatim (CAT) or in the ORDER-0 coder, through the
+   model of noodles' own decoder; the Nx16 order-1 coder and STRIPE, the arithmetic coder,
+   fqzcomp, the name tokenizer and gzip/bzip2/lzma have no theorem (implementation-side oracle
+   only). *)
 From Coq Require Import List NArith ZArith.
 From NV Require Import Cram.Bytes Cram.Itf8 Cram.Ltf8 Cram.Vlq Cram.IntProofs Cram.Rans4x8 Cram.Rans4x8Proofs
   Cram.Rans4x8Table Cram.Rans4x8O1 Cram.Rans4x8O1Proofs Cram.Rans4x8O1Table Cram.Rans4x8O1Full
-  Cram.Nx16Xform Cram.Nx16XformProofs Cram.Nx16O0 Cram.Nx16O0Proofs Cram.Nx16Full.
+  Cram.Nx16Xform Cram.Nx16XformProofs Cram.Nx16O0 Cram.Nx16O0Proofs Cram.Nx16O0Table Cram.Nx16O0Total
+  Cram.Nx16Full Cram.Nx16FullProofs.
 Import ListNotations.
 Open Scope N_scope.
 
@@ -267,11 +273,83 @@ Theorem c08_nx_decode_never_panics : forall bs usize, nx_decode bs usize <> DPan
 Proof. exact nx_decode_never_panics. Qed.
 Print Assumptions c08_nx_decode_never_panics.
 
-(* NOT proved as a whole: the streams with PACK and/or RLE contexts (the component round trips
-   above composed with the context layouts); compared with the implementation only *)
-Definition c08_nx_xform_full_statement : Prop := nx_xform_full_statement.
+(* ---------------- rANS Nx16: the ORDER-0 entropy coder and whole streams ---------------- *)
 
-(* the full C08 statement, NOT proved beyond the parts above: the rANS Nx16 entropy coders and
+(* normalize_frequencies (encoder): 256 entries adding up to EXACTLY 4096 unless the input is
+   empty, every symbol that occurs keeps a frequency >= 1 (so state_renormalize terminates) *)
+Theorem c08_nx_normalize_table : forall raw F,
+  length raw = 256%nat -> nx_normalize raw = Some F ->
+  length F = 256%nat /\ (0 < sumN raw -> sumN F = 4096) /\
+  (forall i, 0 < nth i raw 0 -> 0 < nth i F 0).
+Proof. exact nx_normalize_table. Qed.
+Print Assumptions c08_nx_normalize_table.
+
+(* write_alphabet / read_alphabet: every non-empty alphabet (runs of adjacent symbols, runs that
+   reach symbol 255, symbol 0 first) is read back, and the reader stops exactly at its end *)
+Theorem c08_nx_alphabet_roundtrip : forall A tail,
+  length A = 256%nat -> In true A -> read_alphabet (write_alphabet A ++ tail) = Some (A, tail).
+Proof. exact alphabet_roundtrip. Qed.
+Print Assumptions c08_nx_alphabet_roundtrip.
+
+(* the N-way interleaved symbol loop with 16-bit renormalisation, ANY number N > 0 of states and
+   any table that gives each used symbol a non-zero frequency and sums to at most 4096: the encoder
+   terminates, its states stay in [2^15, 2^31), and noodles' decoder loop returns the input *)
+Theorem c08_nx_o0_core_roundtrip : forall n, (0 < n)%nat -> forall src F,
+  table_ok F src ->
+  exists st stack,
+    nx_enc_symbols n F (cumulative F) src = Some (st, stack) /\
+    length st = n /\ Forall state_ok16 st /\
+    forall tail, nxd0_loop (length src) 4096 F (cumulative F) st (stack ++ tail) = ROk src.
+Proof. exact nx_o0_core_roundtrip. Qed.
+Print Assumptions c08_nx_o0_core_roundtrip.
+
+(* the whole order-0 stream (alphabet, uint7 frequencies, N states, payload), EVERY non-empty byte
+   string shorter than 2^32, N = 4, 32 or any other positive count *)
+Theorem c08_nx_o0_roundtrip : forall n src tail,
+  (0 < n)%nat -> src <> [] ->
+  Forall (fun b => b < 256) src -> N.of_nat (length src) < 4294967296 ->
+  exists body, nx_o0_encode n src = EncOk body /\
+               nxd0_decode (body ++ tail) (length src) n = ROk src.
+Proof. exact nx_o0_roundtrip. Qed.
+Print Assumptions c08_nx_o0_roundtrip.
+
+(* WHOLE Nx16 STREAMS, every flag byte without STRIPE (ORDER, N32, NO_SIZE, CAT, RLE, PACK and the
+   reserved bit arbitrary), every byte string shorter than 2^28: rans_nx16::encode never panics or
+   diverges, and unless it hands the data to the order-1 coder, rans_nx16::decode returns the input
+   -- PACK and RLE applied or refused (flag dropped), CAT given or forced by the short-input
+   fall-back, order-0 entropy coding with 4 or 32 states, with or without the size field.
+   This contains the former nx_xform_full_statement (PACK / RLE contexts composed). *)
+Theorem c08_nx_full_roundtrip : forall f src,
+  f_stripe f = false -> Forall (fun b => b < 256) src -> N.of_nat (length src) < 268435456 ->
+  match nx_encode_e f src with
+  | NeOk bytes => nx_decode_e bytes (N.of_nat (length src)) = DOk src
+  | NeOrder1 => True
+  | _ => False
+  end.
+Proof. exact nx_full_roundtrip. Qed.
+Print Assumptions c08_nx_full_roundtrip.
+
+(* totality of the repaired decoders: for EVERY byte string the order-0 decoder (any table the
+   reader accepts, incl. tables scaled up by a power of two and the all-zero table; u32 state
+   arithmetic checked explicitly in the model) and the whole-stream decoder (incl. the branch for
+   entropy-compressed RLE meta-data) return bytes, an io::Error or "unsupported" -- never a panic *)
+Theorem c08_nxd0_decode_never_panics : forall bs len n,
+  (0 < n)%nat -> Forall (fun b => b < 256) bs -> nxd0_decode bs len n <> RPanic.
+Proof. exact nxd0_decode_never_panics. Qed.
+Print Assumptions c08_nxd0_decode_never_panics.
+
+Theorem c08_nx_decode_e_never_panics : forall bs usize,
+  Forall (fun b => b < 256) bs -> nx_decode_e bs usize <> DPanic.
+Proof. exact nx_decode_e_never_panics. Qed.
+Print Assumptions c08_nx_decode_e_never_panics.
+
+(* NOT proved: the same statement for the streams the encoder hands to the ORDER-1 coder (NeOrder1
+   above) and for STRIPE; compared with nothing but the implementation's own round trip *)
+Definition c08_nx_order1_full_statement : Prop :=
+  forall f src, Forall (fun b => b < 256) src -> N.of_nat (length src) < 268435456 ->
+    exists bytes, nx_encode_e f src = NeOk bytes /\ nx_decode_e bytes (N.of_nat (length src)) = DOk src.
+
+(* the full C08 statement, NOT proved beyond the parts above: the rANS Nx16 order-1 coder and
    STRIPE, the adaptive arithmetic coder, fqzcomp, the name tokenizer and gzip/bzip2/lzma have no
    Gallina model *)
 Definition c08_full_statement_informal : Prop :=
@@ -342,3 +420,39 @@ Example c08_former_decoder_panics_are_errors :
   spec_read_frequencies0 [97; 144; 0; 99; 1; 0] = None /\
   spec_read_frequencies0_raw [97; 144; 0; 99; 1; 0] <> None.
 Proof. vm_compute. repeat split. discriminate. Qed.
+
+(* noodles' own test vectors through the models: encode.rs test_encode_order_0 and test_encode_pack
+   ("noodles"), decode.rs test_decode_order_0 (a table of total 8, scaled up by the decoder),
+   test_decode_rle (entropy-compressed RLE meta-data) and test_decode_bit_packing_with_6_symbols *)
+Example c08_nx_noodles_vectors :
+  let noodles := [110; 111; 111; 100; 108; 101; 115] in
+  nx_encode_e_byte 0 noodles = NeOk
+    [0; 7; 100; 101; 0; 108; 110; 111; 0; 115; 0; 132; 73; 132; 73; 132; 73; 132; 73; 137; 19; 132; 73;
+     27; 167; 24; 0; 233; 74; 12; 0; 49; 109; 12; 0; 8; 128; 3; 0] /\
+  nx_encode_e_byte 128 noodles = NeOk
+    [128; 7; 6; 100; 101; 108; 110; 111; 115; 4; 4; 5; 0; 18; 67; 0; 136; 0; 136; 0; 136; 0; 136; 0; 0;
+     12; 2; 0; 0; 0; 2; 0; 0; 8; 2; 0; 0; 4; 2; 0] /\
+  nx_decode_e [0; 7; 100; 101; 0; 108; 110; 111; 0; 115; 0; 1; 1; 1; 1; 3; 1; 0; 38; 32; 0; 0; 184; 10;
+               0; 0; 216; 10; 0; 0; 0; 4; 0] 0 = DOk noodles /\
+  nx_decode_e [64; 13; 6; 6; 23; 1; 7; 111; 0; 2; 1; 1; 0; 0; 1; 0; 0; 12; 2; 0; 0; 8; 2; 0; 0; 128; 0;
+               0; 100; 101; 0; 108; 110; 111; 0; 115; 0; 3; 1; 1; 1; 1; 1; 0; 58; 32; 0; 0; 124; 32; 0;
+               0; 82; 1; 0; 0; 8; 4; 0] 0
+    = DOk [110; 111; 111; 111; 111; 111; 111; 111; 111; 100; 108; 101; 115] /\
+  nx_decode_e [128; 7; 6; 100; 101; 108; 110; 111; 115; 4; 4; 5; 0; 18; 67; 0; 1; 1; 1; 1; 0; 12; 2; 0;
+               0; 0; 2; 0; 0; 8; 2; 0; 0; 4; 2; 0] 0 = DOk noodles.
+Proof. vm_compute. repeat split. Qed.
+
+(* whole Nx16 streams on concrete inputs: order 0 with 4 and with 32 states, PACK+RLE in front of
+   the entropy coder, an alphabet whose run reaches symbol 255; an order-1 request is not modelled;
+   a table of total 3 is rejected, a run past symbol 255 is an error *)
+Example c08_nx_full_examples :
+  let rt fb src := match nx_encode_e_byte fb src with
+                   | NeOk b => nx_decode_e b (N.of_nat (length src))
+                   | _ => DErr end in
+  let s1 := map N.of_nat (seq 0 40) ++ repeat 7 30 ++ [250; 251; 252; 253; 254; 255; 255; 0] in
+  let s2 := repeat 5 60 ++ [3; 4; 4; 4] ++ repeat 9 50 ++ [3; 5; 5; 9; 9; 9; 4] in
+  rt 0 s1 = DOk s1 /\ rt 4 s1 = DOk s1 /\ rt 192 s2 = DOk s2 /\ rt 212 s2 = DOk s2 /\
+  nx_encode_e_byte 1 s1 = NeOrder1 /\
+  nx_decode_e [0; 5; 65; 0; 3; 0; 128; 0; 0; 0; 128; 0; 0; 0; 128; 0; 0; 0; 128; 0; 0] 0 = DErr /\
+  nx_decode_e [0; 5; 254; 255; 1; 0; 1; 1] 0 = DErr.
+Proof. vm_compute. repeat split. Qed.
